@@ -185,6 +185,16 @@ def code_tables(repo):
     src = ast.unparse(mul[0])
     if 'ptype = _mul_result_ptype(wavefront.ptype, self.ptype)' not in src or not re.search(r'Wavefront\.empty\([^)]*ptype=ptype', src):
         raise Refuse('Plane.multiply: result ptype hand-over not found')
+    # no way out of Plane.multiply other than the guard's raise and the final `return out`, where `out` is the wavefront
+    # built by Wavefront.empty(..., ptype=ptype): an early return would hand back a wavefront whose type the table did not set
+    rets = [n for n in ast.walk(mul[0]) if isinstance(n, ast.Return)]
+    if len(rets) != 1 or rets[0] is not body[-1] or ast.unparse(rets[0]) != 'return out':
+        raise Refuse('Plane.multiply: a return other than the final `return out` (result type would bypass the ptype table)')
+    outs = [n for n in ast.walk(mul[0]) if isinstance(n, ast.Assign) and any(ast.unparse(t) == 'out' for t in n.targets)]
+    if len(outs) != 1 or not re.match(r'(lentil\.)?Wavefront\.empty\(', ast.unparse(outs[0].value)) or 'ptype=ptype' not in ast.unparse(outs[0].value):
+        raise Refuse('Plane.multiply: `out` is not built once by Wavefront.empty(..., ptype=ptype)')
+    if any(isinstance(n, (ast.Raise, ast.Try)) for st in body[1:] for n in ast.walk(st)):
+        raise Refuse('Plane.multiply: raise/try after the ptype guard')
     # statements between the guard and the result must not touch the operands' ptype
     if re.search(r'(wavefront|self)\.(_)?ptype\s*=[^=]', src): raise Refuse('Plane.multiply assigns a ptype')
 
